@@ -345,10 +345,11 @@ theorem insertJobs_cases (s : State) (b upd user : Nat) (specs : List JobSpec) :
 cancelled) and its id already exists ⇒ `ok 0`, nothing changes -/
 theorem insertJobs_dup (s : State) (b upd user : Nat) (first : JobSpec) (rest : List JobSpec) (u : Update) (bt : Batch)
     (hu : findUpdate s b upd = some u) (hbt : findBatch s b = some bt) (h1 : bt.user = user) (h2 : bt.deleted = false)
-    (h3 : u.committed = false) (hnc : groupCancelled s b (mkJob u b first).group = false)
+    (h3 : u.committed = false) (hids : ∀ sp ∈ first :: rest, specIdsOk u sp = true)
+    (hnc : groupCancelled s b (mkJob u b first).group = false)
     (hdup : (findJob s b (first.relId + u.startJob - 1)).isSome) :
     insertJobs s b upd user (first :: rest) = (s, .ok 0) := by
-  have hrej := insertJobsReject_dup s b user first rest u bt h1 h2 h3 hnc hdup
+  have hrej := insertJobsReject_dup s b user first rest u bt h1 h2 h3 hids hnc hdup
   simp only [insertJobs, hu, hbt, hrej]
 
 theorem insertJobs_idem (s : State) (b upd user : Nat) (specs : List JobSpec) :
@@ -359,7 +360,7 @@ theorem insertJobs_idem (s : State) (b upd user : Nat) (specs : List JobSpec) :
   · rw [e]
     subst hs
     obtain ⟨hall, -, h3, h1, h2⟩ := insertJobsReject_none hrej
-    refine insertJobs_dup _ b upd user first rest u bt hu hbt h1 h2 h3 ?_ ?_
+    refine insertJobs_dup _ b upd user first rest u bt hu hbt h1 h2 h3 (insertJobsReject_ids hrej) ?_ ?_
     · -- `insertJobsApply` touches neither `groups` nor `cancelled`
       exact (hall (mkJob u b first) (by simp)).1
     have hnone : findJob s b (first.relId + u.startJob - 1) = none := (hall (mkJob u b first) (by simp)).2.2
